@@ -501,6 +501,57 @@ pub proof fn lemma_tvvvv_push(v: Seq<Vec<Vec<Vec<Target>>>>, x: Vec<Vec<Vec<Targ
     u.emit(og, vis='pub')
     u.text('}\n} }')
 
+    # ------------------------------------------------------------------ CommitPhaseProofStepTargets (the packing must take EVERY sibling value: a surplus one makes the lengths differ and the run fail)
+    u.text('''verus! {
+pub struct CommitPhaseProofStep<PI> { pub log_arity: u8, pub sibling_values: Vec<Fv>, pub opening_proof: PI }
+pub struct CommitPhaseProofStepTargets<PF> { pub log_arity: usize, pub sibling_coefficients: Vec<Target>, pub opening_proof: PF }
+/// the basis coefficients of a sibling value, each lifted to the circuit field (`as_basis_coefficients_slice().iter().map(|&c| EF::from(c))`): EF::DIMENSION values
+pub uninterp spec fn sp_coeffs(v: Fv) -> Seq<Fv>;
+pub uninterp spec fn sp_dim() -> nat;
+#[verifier::external_body] pub fn ef_dimension() -> (r: usize) ensures r == sp_dim() { unimplemented!() }
+#[verifier::external_body] pub fn lifted_coeffs(v: &Fv) -> (r: Vec<Fv>) ensures r@ == sp_coeffs(*v), r@.len() == sp_dim() { unimplemented!() }
+pub open spec fn flat_coeffs(s: Seq<Fv>, n: int) -> Seq<Fv> decreases n { if n <= 0 { Seq::empty() } else { flat_coeffs(s, n - 1) + sp_coeffs(s[n - 1]) } }
+pub open spec fn pow2n(k: nat) -> nat decreases k { if k == 0 { 1 } else { 2 * pow2n((k - 1) as nat) } }
+impl<PF: Rec> CommitPhaseProofStepTargets<PF> {
+    pub open spec fn privs_(&self) -> Seq<ExprId> { self.sibling_coefficients@ + self.opening_proof.privs() }
+    pub open spec fn priv_vals_(i: &CommitPhaseProofStep<PF::Input>) -> Seq<Fv> { flat_coeffs(i.sibling_values@, i.sibling_values@.len() as int) + PF::priv_vals(&i.opening_proof) }
+}
+pub proof fn lemma_shl_pow2n(k: usize) requires k < 64 ensures (1usize << k) == pow2n(k as nat) decreases k
+{
+    if k == 0 { assert((1usize << 0usize) == 1) by (bit_vector); }
+    else { lemma_shl_pow2n((k - 1) as usize); let j = (k - 1) as usize; assert(j < 63 ==> (1usize << ((j + 1) as usize)) == 2 * (1usize << j)) by (bit_vector); }
+}
+}''')
+    CI = r'Recursive<EF>\s*for CommitPhaseProofStepTargets<F, EF, RecMmcs>'
+    CS = [(r'RecMmcs::Proof::', 'PF::'), (r'EF::DIMENSION', 'ef_dimension()')]
+    cn = erase(u.extract(T, CI, 'new', 'CommitPhaseProofStepTargets::new'), 'CommitPhaseProofStepTargets', CS)
+    cn.set_sig('R11', 'fn new<PF: Rec>(circuit: &mut CircuitBuilder, input: &CommitPhaseProofStep<PF::Input>) -> CommitPhaseProofStepTargets<PF>')
+    cn.requires('realistic_arity', 'input.log_arity < 32 && sp_dim() < 0x1_0000')
+    cn.ensures('allocation_order_is_the_traversal_order', 'final(circuit).privs@ == old(circuit).privs@ + ret.privs_() && final(circuit).pubs@ == old(circuit).pubs@ + ret.opening_proof.pubs()')
+    cn.ensures('arity_minus_one_siblings_of_dimension_coefficients', 'ret.sibling_coefficients@.len() == (pow2n(input.log_arity as nat) - 1) * sp_dim()')
+    cn.rewrite_re('SPEC', r'(let arity = 1usize << log_arity;)', r'\1 proof { lemma_shl_pow2n(log_arity); lemma_pow2n_small(log_arity as nat); assert((pow2n(log_arity as nat) - 1) * sp_dim() < 0x1_0000_0000_0000) by (nonlinear_arith) requires pow2n(log_arity as nat) <= 0x1_0000_0000, sp_dim() < 0x1_0000; }', min_count=0)
+    cn.bind_tail('r_', 'proof { assert(circuit.privs@ =~= old(circuit).privs@ + r_.privs_()); }')
+    cp = erase(u.extract(T, CI, 'get_private_values', 'CommitPhaseProofStepTargets::get_private_values'), 'CommitPhaseProofStepTargets', CS)
+    cp.set_sig('R11', 'fn get_private_values<PF: Rec>(input: &CommitPhaseProofStep<PF::Input>) -> Vec<Fv>')
+    cp.rewrite_re('R7', r'let mut values: Vec<EF> = Vec::(?:new\(\)|with_capacity\([^;]*\));', 'let mut values: Vec<Fv> = Vec::new();', min_count=0)
+    cp.rewrite_re('R5', r'for (\w+) in &input\.sibling_values \{', r'for sv_ in 0..input.sibling_values.len() { let \1 = &input.sibling_values[sv_];', min_count=0)
+    cp.rewrite_re('R5', r'for (\w+) in input\.sibling_values\.iter\(\)\.take\((\w+)\) \{', r'for sv_ in 0..(if \2 <= input.sibling_values.len() { \2 } else { input.sibling_values.len() }) { let \1 = &input.sibling_values[sv_];', min_count=0)
+    cp.rewrite_re('R6', r'let coeffs = (\w+)\.as_basis_coefficients_slice\(\);\s*values\.extend\(coeffs\.iter\(\)\.map\(\|&c\| EF::from\(c\)\)\);', r'let coeffs = lifted_coeffs(\1); values.extend_from_slice(coeffs.as_slice());', min_count=0)
+    cp.rewrite_re('R6', r'values\.extend\((\w+(?:::\w+)*\(\s*[^;]*?\))\);', r'let tmp_ = \1; values.extend_from_slice(tmp_.as_slice());', min_count=0, flags_dotall=True)
+    cp.rewrite_re('R11', r'\(1usize << input\.log_arity\)', '(1usize << (input.log_arity as usize))', min_count=0)
+    cp.ensures('every_sibling_value_with_all_its_coefficients_then_the_opening_proof', 'ret@ == CommitPhaseProofStepTargets::<PF>::priv_vals_(input)')
+    SV = re.search(r'for sv_ in 0\.\.[^{]+', cp.body)
+    if SV and 'input.sibling_values.len() {' in SV.group(0) + '{' and re.match(r'for sv_ in 0\.\.input\.sibling_values\.len\(\)\s*$', SV.group(0)):
+        cp.loop('for sv_ in 0..input.sibling_values.len()', invariants=[('siblings_so_far', 'values@ == flat_coeffs(input.sibling_values@, sv_ as int)')])
+    u.text('''verus! {
+pub proof fn lemma_pow2n_pos(k: nat) ensures pow2n(k) >= 1 decreases k { if k > 0 { lemma_pow2n_pos((k - 1) as nat); } }
+pub proof fn lemma_pow2n_mono(a: nat, b: nat) requires a <= b ensures pow2n(a) <= pow2n(b) decreases b { if a < b { lemma_pow2n_mono(a, (b - 1) as nat); lemma_pow2n_pos((b - 1) as nat); } }
+pub proof fn lemma_pow2n_small(k: nat) requires k < 32 ensures pow2n(k) <= 0x1_0000_0000, pow2n(k) >= 1
+{ lemma_pow2n_mono(k, 32); lemma_pow2n_pos(k); assert(pow2n(32) == 0x1_0000_0000) by (compute); }
+pub mod commit_phase_step { use super::*;''')
+    u.emit(cn, vis='pub')
+    u.emit(cp, vis='pub')
+    u.text('} }')
     u.text('verus! { pub mod query_proof { use super::*;')
     for f in (qn, qv, qp):
         u.emit(f, vis='pub')
